@@ -128,6 +128,26 @@ CHECKS = {
              "rejects any value outside its kind's range or of wrong arity; violations carry an input-class tag so that the "
              "recorded findings stay specific.",
         ref="4/C01"),
+    "C03": dict(
+        technique="TLA+ routing table of every evaluate() (Bundle.tla); TLC enumerates all keyword subsets; replayed "
+                  "key-by-key, bit-identically, against table-driven direct calls",
+        text="Bundle.tla fixes per task the key sequence and, per key, the public function, result position and forced "
+             "parameters; Params(fn) the documented signatures. MC_C03 enumerates every subset (<=2 quick, <=4 thorough) of each "
+             "task's keyword pool incl. unrelated and near-miss names and checks forced-wins / reaches-exactly / near-miss-inert. "
+             "Per subset and seeded input (incl. empty sides) evaluate()'s key sequence, scalar-ness and every value "
+             "(bit-identical) are compared with fn(pre(x), **effective)[pos] computed through the public stage functions.",
+        ref="4/C03, App. D"),
+    "C14": dict(
+        technique="TLA+ validity catalogue (valid shapes; fault -> entry points -> exception class) enumerated by TLC and "
+                  "executed on the code",
+        text="Validity.tla lists, per task, the valid shapes (empty sides, single items, duplicates, estimates starting "
+             "earlier/later or running longer, boundaries coinciding with the reference's start/end, one-frame tracks, "
+             "window == frame_size, optional melody arrays with late-starting time bases) and 93 single faults with the entry "
+             "points documented to check them and the exception class. Every valid shape is run through every entry point of "
+             "the task (must return); every fault through its entry points (must raise exactly ValueError / "
+             "InvalidChordException).",
+        ref="4/C14, App. E",
+        category="fault_enumeration"),
 }
 
 PENDING = "check not built yet (build in progress; see DESIGN.md section 10)"
